@@ -18,4 +18,8 @@ def inner(a: PolyLike, b: PolyLike) -> ndpoly:
 
     """
     a, b = numpoly.align_exponents(a, b)
+    if not a.shape or not b.shape:
+        return numpoly.multiply(a, b)
+    # out[i..., j...] = sum_k a[i..., k]*b[j..., k]
+    a = a[(slice(None),) * (a.ndim - 1) + (numpy.newaxis,) * (b.ndim - 1)]
     return numpoly.sum(numpoly.multiply(a, b), axis=-1)
